@@ -1,83 +1,10 @@
-import JominiModel.Model.TextTape
-import JominiModel.Proofs.TextTape
+import JominiModel.Proofs.TextTapeCutLex
+import JominiModel.Proofs.TextTapeStable
 /-
-C19 (text lexemes): what the scalar scanners return on a truncated input.
+C19 (text tape parser): what the scalar scanners and the whole parser return on a truncated input.
 -/
 namespace Jomini.TextTape
 open Jomini
-
-/-! ### quoted scalars -/
-
-theorem quoteClose_append : ∀ (p q : Bytes) (b : Bool) (j : Nat),
-    quoteClose p b = some j → quoteClose (p ++ q) b = some j ∧ j < p.length
-  | [], _, _, _, h => by simp [quoteClose] at h
-  | c :: cs, q, true, j, h => by
-    simp only [quoteClose, Option.map_eq_some_iff] at h
-    obtain ⟨a, ha, rfl⟩ := h
-    have := quoteClose_append cs q false a ha
-    simp [quoteClose, this.1]; exact this.2
-  | c :: cs, q, false, j, h => by
-    simp only [quoteClose] at h
-    by_cases h92 : c = 92
-    · simp only [h92, if_true, Option.map_eq_some_iff] at h
-      obtain ⟨a, ha, rfl⟩ := h
-      have := quoteClose_append cs q true a ha
-      simp [quoteClose, h92, this.1]; exact this.2
-    · by_cases h34 : c = 34
-      · simp [h34] at h; subst h; simp [quoteClose, h34]
-      · simp only [h92, h34, if_false, Option.map_eq_some_iff] at h
-        obtain ⟨a, ha, rfl⟩ := h
-        have := quoteClose_append cs q false a ha
-        simp [quoteClose, h92, h34, this.1]; exact this.2
-
-/-- the bytewise scanner on a prefix: a result is the result on the whole input, with the rest
-extended by what was cut off; the closing quote lies inside the prefix. -/
-theorem parseQuoteScalarFallback_prefix (p q : Bytes) (s rest : Bytes)
-    (h : parseQuoteScalarFallback p = .ok (s, rest)) :
-    parseQuoteScalarFallback (p ++ q) = .ok (s, rest ++ q) ∧ s.length + 2 ≤ p.length := by
-  cases p with
-  | nil => simp [parseQuoteScalarFallback, quoteClose] at h
-  | cons c hay =>
-    simp only [parseQuoteScalarFallback, List.tail_cons] at h
-    cases hq : quoteClose hay false with
-    | none => simp [hq] at h
-    | some k =>
-      simp only [hq, quoteCut, Except.ok.injEq, Prod.mk.injEq] at h
-      obtain ⟨rfl, rfl⟩ := h
-      have := quoteClose_append hay q false k hq
-      simp only [parseQuoteScalarFallback, List.cons_append, List.tail_cons, this.1, quoteCut]
-      have hk := this.2
-      refine ⟨?_, ?_⟩
-      · congr 2
-        · rw [List.take_append_of_le_length (by omega)]
-        · rw [List.drop_append_of_le_length (by omega)]
-      · simp; omega
-
-/-! ### unquoted scalars -/
-
-theorem findFirst_take (p : UInt8 → Bool) : ∀ (d : Bytes) (k : Nat),
-    findFirst p (d.take k) = min (findFirst p d) k
-  | [], k => by simp [findFirst]
-  | c :: cs, 0 => by simp [findFirst]
-  | c :: cs, k + 1 => by
-    simp only [List.take_succ_cons, findFirst]
-    split
-    · simp
-    · rw [findFirst_take p cs k]; omega
-
-theorem findFirst_before (p : UInt8 → Bool) : ∀ (d : Bytes) (i : Nat) (h : i < d.length),
-    i < findFirst p d → p d[i] = false
-  | [], i, h, _ => by simp at h
-  | c :: cs, i, h, hi => by
-    simp only [findFirst] at hi
-    split at hi
-    · omega
-    · next hc =>
-      cases i with
-      | zero => simpa using hc
-      | succ i =>
-        simp
-        exact findFirst_before p cs i (by simpa using h) (by omega)
 
 /-- C19 (text lexemes), quoted: a quoted scalar cut from a truncated input `d.take k` is exactly the
 scalar the whole input yields at that place (never extended or merged with what follows), the
@@ -138,5 +65,112 @@ theorem C19_scalar_not_merged (htab : Tables.sseBoundary = Tables.boundaryTab)
       apply findFirst_before
       omega
   · simp at h
+
+/-! ### the whole parser on a truncated input -/
+
+/-- C19 (text tape), step level: one iteration of the main loop that stops at least two bytes
+before the end of a truncated input does exactly the same on every extension of that input
+(same next state, same tokens; the positions, recorded relative to the end of the input, shift
+by the length of the extension).  Two bytes is the parser's maximal lookahead. -/
+theorem C19_text_tape_step (n1 n2 : Nat) (st st' : St) (dp d' q : Bytes)
+    (h : step n1 st dp = .cont st' d') (hd : 2 ≤ d'.length) :
+    step n2 (st.shift q.length) (dp ++ q) = .cont (st'.shift q.length) (d' ++ q) := by
+  simp only [step] at h ⊢
+  cases hsk : skipWs dp with
+  | none => simp [hsk] at h
+  | some x =>
+    simp only [hsk] at h
+    rw [skipWs_append q hsk]
+    obtain ⟨c, cs, rfl, _⟩ := skipWsAux_some dp false x hsk
+    simpa using stepAt_append (n2 := n2) q h hd
+
+/-- C19 (text tape), stability: once the parser is in a state `st`, the tokens below every open
+container and below the last token (`Frozen f st`) are final: whatever input follows, a successful
+parse returns them unchanged.  (So completed top-level fields are never revised.) -/
+theorem C19_text_tape_stable (n f fuel : Nat) (st : St) (d : Bytes) (T : List Tok) (b : Bool)
+    (hinv : StInv st) (hf : Frozen f st) (h : run n fuel st d = .ok T b) :
+    T.take f = st.tape.take f :=
+  run_frozen n f fuel st d T b hinv hf h
+
+/-
+Full statement (C19, text tape parser): for every input `d` and `k`, if
+`parse (d.take k) = .ok T' b'` and `parse d = .ok T b` then every completed top-level field of T'
+equals the corresponding field of T and at most the last one differs or is absent (with the
+single-level auto-close at EOF accounted for).
+
+Proved below for ALL inputs: the two parses run in lockstep up to the point where the truncated
+one has fewer than two bytes of lookahead left; the tape `C` they share at that point is common to
+both results up to its last token (top level) resp. up to the still open top-level container:
+`T'.take m = C.take m` and `T.take m = (C.take m)` with the positions shifted.  So every top-level
+field completed before that point is identical in T' and T, including its offsets.
+Missing for the full statement: the description of what the truncated parse can still append
+behind `C` with its last (< 2 + current lexeme) bytes — at most the value being cut and the EOF
+auto-close; this tail is covered by the `tcut` correspondence op and its oracle only.
+-/
+/-- C19 (text tape), all inputs: the common prefix of the tape of a truncated input and the tape
+of the whole input. -/
+theorem C19_text_tape_common_prefix_partial (d : Bytes) (k : Nat) (T' T : List Tok) (b' b : Bool)
+    (hk : k ≤ d.length) (hbom : hasBom (d.take k) = hasBom d)
+    (h' : parse (d.take k) = .ok T' b') (h : parse d = .ok T b) :
+    ∃ (C : List Tok) (m : Nat), m ≤ C.length ∧
+      T'.take m = C.take m ∧ T.take m = (C.take m).map (Tok.shift (d.length - k)) ∧
+      (C = [] ∨ m + 1 = C.length ∨
+        ∃ mx, C[m]? = some (.array 0 mx) ∨ C[m]? = some (.object 0 mx)) := by
+  -- the two cursors
+  have hq : (d.drop k).length = d.length - k := by simp
+  unfold parse at h' h
+  simp only at h' h
+  rw [hbom] at h'
+  generalize hdp : (if hasBom d = true then List.drop 3 (d.take k) else d.take k) = dp at h'
+  generalize hdd : (if hasBom d = true then List.drop 3 d else d) = dd at h
+  have hsplit : dd = dp ++ d.drop k := by
+    rw [← hdp, ← hdd]
+    split
+    · next hb =>
+      have hk3 : 3 ≤ k := by
+        rcases Nat.lt_or_ge k 3 with hlt | hge
+        · exfalso
+          have : hasBom (d.take k) = false := by
+            simp only [hasBom, beq_eq_false_iff_ne, ne_eq]
+            intro h0
+            have := congrArg List.length h0
+            simp at this; omega
+          rw [hbom, hb] at this; simp at this
+        · exact hge
+      rw [← List.drop_append_of_le_length (by simp; omega), List.take_append_drop]
+    · exact (List.take_append_drop k d).symm
+  generalize hrp : run (d.take k).length (fuelFor dp) St.init dp = rp at h'
+  generalize hrd : run d.length (fuelFor dd) St.init dd = rd at h
+  have hrp' : ∃ bp, rp = .ok T' bp := by cases rp <;> simp [Res.withBom] at h'; exact ⟨_, by rw [h'.1]⟩
+  have hrd' : ∃ bd, rd = .ok T bd := by cases rd <;> simp [Res.withBom] at h; exact ⟨_, by rw [h.1]⟩
+  obtain ⟨bp, rfl⟩ := hrp'
+  obtain ⟨bd, rfl⟩ := hrd'
+  -- lockstep
+  obtain ⟨j, st0, d0, fuel0, hinv0, hrun0, _, hlock⟩ :=
+    run_lockstep (d.take k).length d.length (d.drop k) (fuelFor dp) St.init dp _ _ hrp StInv.init
+  have hD : run d.length (fuelFor dd) (st0.shift (d.drop k).length) (d0 ++ d.drop k) = .ok T bd := by
+    have := hlock (fuelFor dd)
+    rw [← hsplit, show St.init.shift (d.drop k).length = St.init from rfl,
+      run_more_fuel _ _ j _ _ _ hrd (by simp)] at this
+    exact this.symm
+  refine ⟨st0.tape, ?_⟩
+  by_cases hne : st0.tape = []
+  · exact ⟨0, by simp, by simp, by simp, .inl hne⟩
+  · obtain ⟨f, hf, hf0, hf1⟩ := exists_frozen hinv0 hne
+    have h1 := run_frozen _ f _ _ _ _ _ hinv0 hf hrun0
+    have h2 := run_frozen _ f _ _ _ _ _ (hinv0.shift _) (hf.shift _) hD
+    refine ⟨f, by have := hf.1; omega, h1, ?_, ?_⟩
+    · rw [h2, St.shift_tape, hq, List.map_take]
+    · by_cases hp : st0.parent = 0
+      · exact .inr (.inl (hf0 hp))
+      · exact .inr (.inr (hf1 hp))
+
+/-- the hypotheses are satisfiable: `a=b cd=e` cut after `a=b` (both parses succeed, no BOM). -/
+example :
+    let d : Bytes := [97, 61, 98, 32, 99, 100, 61, 101]
+    (∃ T' b', parse (d.take 3) = .ok T' b') ∧ (∃ T b, parse d = .ok T b) ∧ hasBom (d.take 3) = hasBom d :=
+  ⟨⟨[.unquoted ⟨3, [97]⟩, .unquoted ⟨1, [98]⟩], false, by decide +kernel⟩,
+   ⟨[.unquoted ⟨8, [97]⟩, .unquoted ⟨6, [98]⟩, .unquoted ⟨4, [99, 100]⟩, .unquoted ⟨1, [101]⟩], false,
+     by decide +kernel⟩, by decide +kernel⟩
 
 end Jomini.TextTape
